@@ -162,7 +162,8 @@ def ir_flow(prop, tier, seed, descs, own, models, level_note_assumptions, t0, ha
     for i, (rule, d, tf, runidx, h, wd2, stg) in enumerate(confirmed):
         if rule == "Hang" and not hang_is_violation:
             raise V.Infra("driver hang on descriptor %s" % d)
-        path = V.save_replay(prop, i, d, stages[stg]["driver_of"](d), tf, runidx, [h])
+        path = V.save_replay(prop, i, d, stages[stg]["driver_of"](d), tf, runidx, [h],
+                             extra=dict(trace_module=stages[stg]["trace_module"], trace_cfg=stages[stg]["trace_cfg"], env=stages[stg].get("env")))
         if nviol < 12:
             log("VIOLATION property=%s replay=%s rule=%s desc=%s" % (prop, path, rule, d))
         elif nviol == 12:
@@ -376,14 +377,14 @@ def check_C09(tier, seed, t0):
 
 
 def check_C11(tier, seed, t0):
-    descs = ["mode=matop;reps=%d;nmax=%d;seed=%d" % (n_of(tier, 3, 24), n_of(tier, 5, 12), seed)]
+    descs = ["mode=matop;part=%s;reps=%d;nmax=%d;seed=%d" % (pt, n_of(tier, 3, 24), n_of(tier, 5, 12), seed) for pt in ("prod", "solve", "ssi")]
     own = ["ProductExact", "RowsCols", "SolveFinite", "SolveAccurate", "ReadsOnlyItsTriangle", "ConfigSpaceComplete", "ShiftInvert64Combinations", "UnknownRow"]
     return ir_flow("C11", tier, seed, descs, own, [], COMMON_ASSUME[:1] + [
         "product wrappers: exact (integer matrices and vectors; the specification computes the product; unused triangle poisoned)",
         "solve wrappers and composite operators: residual of the defining equation measured in long double and judged with the condition number of the factorized matrix; "
         "poison independence by digest equality of two runs that differ only in the unused triangle",
         "the instantiated configuration set is checked against MatOp.tla's enumeration (scalar types x storage index types are sampled for the sparse wrappers: double with int/long, float and long double with int)"], t0,
-        trace_module="TraceKernel.tla", trace_cfg="TraceKernel.cfg", driver_of=lambda d: "drv_matop", extra_cov=dict(exhaustive=True))
+        trace_module="TraceKernel.tla", trace_cfg="TraceKernel.cfg", driver_of=lambda d: "drv_matop_" + [x.split("=")[1] for x in d.split(";") if x.startswith("part=")][0], extra_cov=dict(exhaustive=True))
 
 
 FIXED_AUX = {"C17": ["mode=lobpcg;count=1;seed=5;kfix=1"], "C15": ["mode=davidson;count=1;seed=3;dec=1"]}
@@ -540,13 +541,25 @@ def main():
 
 
 def replay(prop, path, t0):
-    with open(os.path.join(path, "desc.txt")) as fh:
-        d = fh.read().strip()
+    """Re-execute the descriptor of a recorded violation with the driver and trace specification that reported it and print
+    the hits; exit 1 if the recorded rule fires again."""
+    with open(os.path.join(path, "hits.json")) as fh:
+        rec = json.load(fh)
+    d = rec["descriptor"]
+    ex = rec.get("extra") or {}
     wd = V.workdir(prop + "_replay")
-    dres, tres = ir_execute(prop, [d], wd, nproc=1)
+    dres, tres = ir_execute(prop, [d], wd, nproc=1, trace_module=ex.get("trace_module", "TraceIR.tla"), trace_cfg=ex.get("trace_cfg", "TraceIR.cfg"),
+                            driver_of=lambda _d: rec["driver"], env=ex.get("env"))
+    rules = set(h["r"] for h in rec.get("hits", []))
+    again = False
     for t in tres:
-        log(json.dumps(t.get("hits", [])))
-    return 0
+        log("hits: " + json.dumps(t.get("hits", [])))
+        again = again or any(h["r"] in rules for h in t.get("hits", []))
+    for r in dres:
+        if r["timeout"] or r["rc"] == 66:
+            again = True
+    log("replay of %s: recorded rule(s) %s %s" % (d, sorted(rules), "fired again" if again else "did not fire"))
+    return 1 if again else 0
 
 
 if __name__ == "__main__":
